@@ -1841,7 +1841,7 @@ func encWanted(codec string) bool { return strHasPrefix(codec, "avc") || strHasP
 //@ func calcStatusCode
 //@   wiring
 //@   loop 1 invariant true
-//@   callsite findLastSegNr requires atCycleStart: arg_nowMS == wrapStartS*1000 && arg_rep == segMeta.rep && nrWraps > 0
+//@   callsite findLastSegNr requires atCycleStart: arg_nowMS == (cfg.StartTimeS + wrapStartS)*1000 && arg_rep == segMeta.rep && nrWraps > 0
 //@   callsite findSegStartTime requires firstOfCycle: arg_nr == firstNr && arg_rep == segMeta.rep && arg_nr >= specStartNr(cfg)
 //@   exit 4 requires indexWithinCycle: idx == ss.Rsq && ret0 == ss.Code && idx == int(segMeta.newNr) - firstNr
 //@   exit 4 requires cycleInReferenceTimescale: nrWraps == int(segMeta.newTime) / (ss.Cycle * int(segMeta.timescale)) && wrapStartS == nrWraps * ss.Cycle
